@@ -105,6 +105,20 @@ func c14ServiceHistory(c *core.Ctx, p idxParams, h int) bool {
 				v, norm := c14NormQuery(q)
 				return v, norm, nil
 			}})
+		// (F) ordinary and query resource on a Mux mounted two levels deep (mounts made top-down)
+		lib := res.NewMux("")
+		s.Mount("lib", lib)
+		v1 := res.NewMux("")
+		lib.Mount("v1", v1)
+		v1.Handle("all", res.Collection, store.QueryHandler{QueryStore: env.qs, Transformer: trans,
+			RequestHandler: func(rname string, pp map[string]string) (url.Values, error) {
+				return idxQuery{Index: "k", Prefix: "", Limit: -1}.values(), nil
+			}})
+		v1.Handle("search", res.Collection, store.QueryHandler{QueryStore: env.qs, Transformer: trans,
+			QueryRequestHandler: func(rname string, pp map[string]string, q url.Values) (url.Values, string, error) {
+				v, norm := c14NormQuery(q)
+				return v, norm, nil
+			}})
 		// (E) query resource whose callbacks run in parallel
 		s.Handle("psearch", res.Collection, res.Parallel(true), store.QueryHandler{QueryStore: env.qs, Transformer: trans,
 			QueryRequestHandler: func(rname string, pp map[string]string, q url.Values) (url.Values, string, error) {
@@ -168,6 +182,7 @@ func c14ServiceHistory(c *core.Ctx, p idxParams, h int) bool {
 	rids := []string{"svc.all", "svc.bykey.a", "svc.bykey.ab", "svc.bykey.b",
 		"svc.search?prefix=a&limit=3", "svc.search?prefix=&rev=1", "svc.search?prefix=ab&limit=2&offset=1", "svc.search?prefix=&filter=evenlen",
 		"svc.searchidx.k?prefix=a", "svc.searchidx.x2?prefix=",
+		"svc.lib.v1.all", "svc.lib.v1.search?prefix=a", "svc.lib.v1.search?prefix=&rev=1",
 		"svc.psearch?prefix=a&limit=2", "svc.psearch?prefix=&rev=1", "svc.psearch?prefix=b", "svc.psearch?prefix=&limit=1&offset=1", "svc.psearch?prefix=ab", "svc.psearch?prefix=&filter=hasa"}
 	var cache []*gwEntry
 	for _, rid := range rids {
@@ -359,7 +374,7 @@ func c14RefForRID(env *idxEnv, rid string) []string {
 	}
 	var iq idxQuery
 	switch {
-	case rname == "svc.all":
+	case rname == "svc.all" || rname == "svc.lib.v1.all":
 		iq = idxQuery{Index: "k", Limit: -1}
 	case strings.HasPrefix(rname, "svc.bykey."):
 		iq = idxQuery{Index: "k", Prefix: strings.TrimPrefix(rname, "svc.bykey."), Limit: -1}
